@@ -461,7 +461,7 @@ impl Model {
         let mut got: BTreeMap<(u16, usize), (u32, u32, u64)> = BTreeMap::new();
         let mut recv_step_of: BTreeMap<(u16, usize), u32> = BTreeMap::new();
         // ambiguous receives per socket: (recv index, candidate send indices)
-        let mut amb: BTreeMap<usize, Vec<(usize, Vec<usize>)>> = BTreeMap::new();
+        let mut amb: BTreeMap<usize, Vec<(usize, Vec<usize>, Vec<usize>)>> = BTreeMap::new();
 
         for (ri, r) in self.recvs.iter().enumerate() {
             let Outcome::Data { len, origin, bytes } = &r.outcome else { continue };
@@ -587,14 +587,14 @@ impl Model {
                         stats,
                     );
                 }
-                amb.entry(r.sock).or_default().push((ri, cands));
+                amb.entry(r.sock).or_default().push((ri, cands, elsewhere));
             }
         }
 
         // ambiguous receives: at most one receive per (datagram, socket) => a matching must exist
         for (xi, list) in &amb {
             let mut match_of_send: BTreeMap<usize, usize> = BTreeMap::new();
-            fn try_aug(k: usize, list: &[(usize, Vec<usize>)], taken: &BTreeSet<usize>, match_of_send: &mut BTreeMap<usize, usize>, seen: &mut BTreeSet<usize>) -> bool {
+            fn try_aug(k: usize, list: &[(usize, Vec<usize>, Vec<usize>)], taken: &BTreeSet<usize>, match_of_send: &mut BTreeMap<usize, usize>, seen: &mut BTreeSet<usize>) -> bool {
                 for &di in &list[k].1 {
                     if taken.contains(&di) || !seen.insert(di) {
                         continue;
@@ -612,6 +612,21 @@ impl Model {
                 let mut seen = BTreeSet::new();
                 if !try_aug(k, list, &taken, &mut match_of_send, &mut seen) {
                     let r = &self.recvs[list[k].0];
+                    if let Some(&di) = list[k].2.iter().find(|di| self.heir_of_member(&self.sends[**di], *xi)).or(list[k].2.first()) {
+                        // every send that was allowed to reach this socket is accounted for; the datagram
+                        // is better explained by a send that never had this socket as a destination
+                        let d = &self.sends[di];
+                        return (
+                            Some(Bad {
+                                class: if list[k].2.iter().any(|di| self.heir_of_member(&self.sends[*di], *xi)) { "MisroutedToPortHeir" } else { "Misrouted" },
+                                message: format!(
+                                    "{} received a short datagram at seq {} ({:?}) that matches no unreceived send addressed to it; it matches e.g. datagram {} sent by {} to {} ({:?}), which never had this socket as a destination",
+                                    self.socks[*xi].name, r.seq, r.outcome, d.id, self.socks[d.sock].name, d.dst, d.class
+                                ),
+                            }),
+                            stats,
+                        );
+                    }
                     return (
                         Some(Bad { class: "Duplicate", message: format!("{} received more short datagrams than were sent to it: receive at seq {} ({:?}) cannot be matched to a distinct send", self.socks[*xi].name, r.seq, r.outcome) }),
                         stats,
@@ -644,7 +659,7 @@ impl Model {
         for (xi, list) in &obs {
             stats.empty_observations += list.len() as u64;
             let x = &self.socks[*xi];
-            let amb_cands: BTreeSet<usize> = amb.get(xi).map(|l| l.iter().flat_map(|(_, c)| c.iter().copied()).collect()).unwrap_or_default();
+            let amb_cands: BTreeSet<usize> = amb.get(xi).map(|l| l.iter().flat_map(|(_, c, _)| c.iter().copied()).collect()).unwrap_or_default();
             let last = list.iter().max_by_key(|(_, st)| *st).copied().unwrap();
             for (di, d) in self.sends.iter().enumerate() {
                 if amb_cands.contains(&di) || d.len < ID_LEN {
